@@ -80,6 +80,14 @@ pub fn check_case(c: &Case, rep: &mut Report) {
                     None
                 }
             }
+            // a skip needs (the existence of) every bit it passes over, and no bit after them
+            ROp::Skip(n) => {
+                if pos + n <= full.len() {
+                    Some((None, pos + n))
+                } else {
+                    None
+                }
+            }
             _ => None,
         };
         let (fv, fend) = match in_full {
@@ -102,6 +110,7 @@ pub fn check_case(c: &Case, rep: &mut Report) {
                 ROp::Unary => None,
                 ROp::Code(cop) => decode(&zdata, pos, e, cop.code()).filter(|(_, np)| *np + 64 < zdata.len()).map(|(v, np)| (Some(v), np)),
                 ROp::IoRead(n) => Some((None, pos + 8 * n)),
+                ROp::Skip(n) => Some((None, pos + n)),
                 _ => None,
             }
         } else {
@@ -116,6 +125,7 @@ pub fn check_case(c: &Case, rep: &mut Report) {
             ROp::Unary => guard(|| h.r.read_unary().map(Some)),
             ROp::Code(cop) => guard(|| h.r.read_code(*cop).map(Some)),
             ROp::IoRead(n) => guard(|| h.r.io_read(*n).unwrap().map(|_| None)),
+            ROp::Skip(n) => guard(|| h.r.skip_bits(*n).map(|_| None)),
             _ => Out::Ok(None),
         };
         rep.eval(1);
@@ -172,6 +182,12 @@ pub fn check_case(c: &Case, rep: &mut Report) {
         }
         // the item needs a bit at or beyond the cut
         if !zext {
+            // a skip yields no value, so a skip past the end that succeeds fabricates nothing (the
+            // unbuffered reader just advances its index): either outcome is accepted, the trace ends
+            if matches!(op, ROp::Skip(_)) {
+                rep.count("skips_past_the_cut_not_judged", 1);
+                return;
+            }
             match &got {
                 Out::Err(_) => {
                     rep.count("errors_observed_at_the_cut", 1);
@@ -237,6 +253,10 @@ fn focus_ops(kind: RKind, rep: &mut Report, rng: &mut Rng, thorough: bool) -> Ve
         v.push((ROp::Unary, Some(x)));
     }
     v.push((ROp::IoRead(3), None));
+    // skips that stay inside the bit buffer, end on it, and run a whole number of words past it
+    for n in [1usize, 7, w - 1, w, w + 1, 2 * w, 2 * w + 1, 3 * w, 3 * w + 5] {
+        v.push((ROp::Skip(n), None));
+    }
     let mut cops: Vec<CodeOp> = super::c07::code_ops_for(kind, rep);
     for k in [1u32, 4, 7] {
         cops.push(CodeOp::Std(Code::Zeta(k)));
@@ -270,6 +290,14 @@ fn push_item(bits: &mut Bits, e: En, op: &ROp, val: Option<u64>, rng: &mut Rng) 
         ROp::IoRead(n) => {
             for _ in 0..*n {
                 push_bits(bits, e, rng.next(), 8);
+            }
+        }
+        ROp::Skip(n) => {
+            let mut left = *n;
+            while left > 0 {
+                let k = left.min(64);
+                push_bits(bits, e, rng.next(), k);
+                left -= k;
             }
         }
         _ => {}
